@@ -100,6 +100,9 @@ type VersionOpts struct {
 	ProviderOpts []txnprovider.Opt
 }
 
+// sharedCompression is the single compression registry of the process.
+var sharedCompression = compression.New(compression.WithDefaultAlgorithms())
+
 // CAS combines read and write.
 type CAS interface {
 	Write(content []byte) (string, error)
@@ -115,7 +118,7 @@ func NewVersion(p protocol.Protocol, o VersionOpts) *Version {
 	v.Validator = didvalidator.New()
 	v.Transf = didtransformer.New(o.TransfOpts...)
 	if o.CAS != nil {
-		cp := compression.New(compression.WithDefaultAlgorithms())
+		cp := sharedCompression // one registry per process, as on a real node: every version, handler and goroutine shares it
 		v.Handler = txnprovider.NewOperationHandler(p, o.CAS, cp, parser, Metrics{})
 		prov := txnprovider.NewOperationProvider(p, parser, o.CAS, cp, o.ProviderOpts...)
 		v.Provider = prov
